@@ -153,7 +153,7 @@ def make_case(seed, index, tier):
     return {'index': index, 'tier': tier}
 
 
-def handler_class(handler):
+def handler_class(handler, ellipsis_at=None):
     kind, listed, inclusive = handler
     if kind == 'bare':
         return Concurrent
@@ -161,7 +161,10 @@ def handler_class(handler):
         return Concurrent[...]
     items = tuple(build_type(atom) for atom in listed)
     if inclusive:
-        items = items + (...,)
+        # a specialisation is determined by the *set* of its items: wherever the `...` is
+        # spelled, it is the same class (the trailing position is merely the documented one)
+        at = len(items) if ellipsis_at is None else ellipsis_at % (len(items) + 1)
+        items = items[:at] + (...,) + items[at:]
     return Concurrent[items if len(items) > 1 else items[0]]
 
 
@@ -315,7 +318,16 @@ def run_case(case):
     # ---- handlers ----
     for handler in handler_space(tier):
         kind, listed, inclusive = handler
-        cls = handler_class(handler)
+        if kind == 'spec' and inclusive and (stats['pairs'] + case['index']) % 3 == 0:
+            # spelled with the `...` somewhere else first, while no other spelling is alive
+            cls = handler_class(handler, ellipsis_at=stats['pairs'])
+            stats['unusual_ellipsis_positions'] = stats.get('unusual_ellipsis_positions', 0) + 1
+            if handler_class(handler) is not cls:
+                violations.append({'mechanism': 'c17:specialisation-not-identical',
+                                   'msg': '%s spelled with the `...` in another position is a '
+                                          'different class' % describe(('C', listed, inclusive))})
+        else:
+            cls = handler_class(handler)
         want = True if kind in ('bare', 'ellipsis') else rule(children, listed, inclusive)
         stats['pairs'] += 1
         stats['matches'] += int(want)
